@@ -51,11 +51,49 @@ class ModelTable:
         self.P = P
         self.models: Dict[str, ModelInfo] = {}
         self._is_model_cache: Dict[str, bool] = {}
+        self.base_config: Dict[str, object] = self._base_config()
         for q, ci in P.classes.items():
             if self.is_model(ci):
                 self.models[q] = None  # type: ignore[assignment]
         for q in list(self.models):
             self.models[q] = self._build(P.classes[q])
+
+    # Pydantic v1 spellings of configuration keys, by the v2 key the tables below know
+    _V1_KEYS = {"anystr_strip_whitespace": "str_strip_whitespace", "anystr_lower": "str_to_lower", "anystr_upper": "str_to_upper", "allow_population_by_field_name": "populate_by_name",
+                "max_anystr_length": "str_max_length", "min_anystr_length": "str_min_length", "orm_mode": "from_attributes", "allow_mutation": "frozen", "smart_union": "protected_namespaces",
+                "copy_on_model_validation": "revalidate_instances", "underscore_attrs_are_private": "protected_namespaces", "validate_all": "validate_default"}
+
+    def _base_config(self) -> Dict[str, object]:
+        """What every model inherits: the configuration of the Pydantic-branch base class (`model_config = {…}` for v2, the
+        inner `class Config` for v1 — either applies, depending on the installed Pydantic, so both are read)."""
+        out: Dict[str, object] = {}
+        mods = [m for m in self.P.modules.values() if m.name.endswith("mcp_pydantic_base")]
+        if not mods:
+            return out
+        m = mods[0]
+        for n in m.tree.body:
+            if isinstance(n, ast.If) and ast.unparse(n.test) == "PYDANTIC_AVAILABLE":
+                for c in n.body:
+                    if isinstance(c, ast.ClassDef) and c.name == BASE_NAME:
+                        fake = ClassInfo.__new__(ClassInfo)
+                        fake.module = m  # type: ignore[attr-defined]
+                        for x in ast.walk(c):
+                            if isinstance(x, (ast.FunctionDef, ast.AsyncFunctionDef)):
+                                continue
+                            if isinstance(x, (ast.Assign, ast.AnnAssign)):
+                                tg = x.targets[0] if isinstance(x, ast.Assign) and len(x.targets) == 1 else getattr(x, "target", None)
+                                if isinstance(tg, ast.Name) and tg.id == "model_config" and x.value is not None:
+                                    out.update(self._config(fake, x.value))
+                            if isinstance(x, ast.ClassDef) and x.name == "Config":
+                                for y in x.body:
+                                    if isinstance(y, ast.Assign) and len(y.targets) == 1 and isinstance(y.targets[0], ast.Name):
+                                        k = self._V1_KEYS.get(y.targets[0].id, y.targets[0].id)
+                                        v = y.value.value if isinstance(y.value, ast.Constant) else ast.unparse(y.value)
+                                        if k == "frozen" and y.targets[0].id == "allow_mutation":
+                                            continue
+                                        if k not in out or out[k] in (False, None):
+                                            out[k] = v  # (the stricter of the two spellings is what some installation gets)
+        return out
 
     # ------------------------------------------------------------------ discovery
     def resolve_class(self, module: str, name: str) -> Optional[ClassInfo]:
@@ -109,7 +147,7 @@ class ModelTable:
     # ------------------------------------------------------------------ building
     def _build(self, ci: ClassInfo) -> ModelInfo:
         fields: Dict[str, FieldInfo] = {}
-        config: Dict[str, object] = {}
+        config: Dict[str, object] = dict(self.base_config)
         for b in self.bases(ci):
             bi = self._build(b) if self.models.get(b.qual) is None else self.models[b.qual]
             fields.update(bi.fields)
